@@ -63,6 +63,10 @@ func genC08(r *kernel.Rand) *kernel.Scenario {
 			sc.Steps = append(sc.Steps, kernel.St("sub-open", "a", r.Range(0, 60), "b", r.Range(0, 60), "app", r.Intn(2)))
 		}
 	}
+	if r.Bool(0.25) {
+		// an opening during which one message cannot be sent
+		sc.Steps = append(sc.Steps, kernel.St("open-fault", "from", r.Intn(2), "r", int64(r.Uint64()>>2), "app", app, "assets", 1, "challenge", cd, "aux", aux, "nth", r.Range(1, 7)))
+	}
 	// mutants, interleaved
 	m := r.Range(0, 6)
 	for i := 0; i < m; i++ {
@@ -139,7 +143,7 @@ func execC08(t *testing.T, sc *kernel.Scenario, trace bool) *kernel.Result {
 			return origOnProposal(cp)
 		}
 		var opens []openRec
-		mutants := 0
+		mutants, faulted := 0, 0
 		for i := range sc.Steps {
 			st := &sc.Steps[i]
 			switch st.Op {
@@ -174,6 +178,31 @@ func execC08(t *testing.T, sc *kernel.Scenario, trace bool) *kernel.Result {
 					} else {
 						s.Count("probe.identical_shares_collide", 1)
 					}
+				}
+			case "open-fault":
+				// an honest opening during which one message cannot be sent (a
+				// transient connection fault). Whether it succeeds is not judged: what
+				// is judged is that every call returns and that the honest opening at
+				// the end of the run still works.
+				side := int(st.Int("from")) & 1
+				if side == 0 {
+					honestToH++
+				}
+				nth, cnt := st.Int("nth"), int64(0)
+				p.w.Bus.FailSend = func(from, to string, e *wire.Envelope) bool {
+					cnt++
+					return cnt == nth
+				}
+				p.nextAccKey, p.nextPropNonce = fmt.Sprintf("an:f%d", i), fmt.Sprintf("pn:f%d", i)
+				before := len(p.chans)
+				k := p.openWith(i, side, st, accKey)
+				p.w.Bus.FailSend = nil
+				faulted++
+				if cnt >= nth {
+					s.Count("fault.send_error_during_opening", 1)
+				}
+				if k >= 0 && len(p.chans) > before {
+					opens = append(opens, openRec{id: p.ids[k], pn: -int64(i), an: -int64(i), sideProposer: side, alloc: p.lastAlloc})
 				}
 			case "sub-open":
 				if len(p.chans) > 0 && st.Int("over") == 1 {
@@ -217,13 +246,13 @@ func execC08(t *testing.T, sc *kernel.Scenario, trace bool) *kernel.Result {
 			}
 		}
 		time.Sleep(50 * time.Millisecond)
-		if !s.Failed() && mutants > 0 {
+		if !s.Failed() && (mutants > 0 || faulted > 0) {
 			// a subsequent honest proposal still succeeds
 			st := kernel.St("open", "from", 0, "r", 4242, "app", 0, "assets", 1, "challenge", 5)
 			p.nextAccKey, p.nextPropNonce = "an:final", "pn:final"
 			honestToH++
 			if k := p.openWith(len(sc.Steps), 0, &st, accKey); k < 0 {
-				s.Fail("C08.honest-proposal-after-mutants-failed", "an honest proposal after %d malformed ones did not open a channel", mutants)
+				s.Fail("C08.honest-proposal-after-mutants-failed", "an honest proposal after %d malformed ones and %d openings with a send error did not open a channel", mutants, faulted)
 			}
 		}
 		time.Sleep(20 * time.Millisecond)
